@@ -149,6 +149,13 @@ def _circuit(ctx, which):
         c.bs(0, reflectivity=f(1, 2))
         c.herald(1, 1, 0)
         return c, lw.State([1, 1])
+    if which == "herald-only":
+        # every injected photon sits on a heralded mode: the user's input is the vacuum
+        c = lw.Circuit(3)
+        c.bs(0, reflectivity=f(1, 3))
+        c.bs(1, reflectivity=f(1, 2), convention="H")
+        c.herald(1, 0, 2)
+        return c, lw.State([0, 0])
     raise AssertionError(which)
 
 
@@ -408,7 +415,7 @@ def harnesses(tier):
         states += [s for k in (2, 3, 4) for s in ref.fock_states(3, k)][::2]
     dl = [dict(state=tuple(s), counting=cnt) for s in states for cnt in (True, False)]
     ni = []
-    for which in ("bs", "herald1", "herald0-lossy", "hom-herald", "bunch-herald"):
+    for which in ("bs", "herald1", "herald0-lossy", "hom-herald", "bunch-herald", "herald-only"):
         for postsel in ("none", "rule", "func"):
             for md in (0, 1, 2):
                 for cnt in (True, False):
@@ -417,12 +424,12 @@ def harnesses(tier):
                     ni.append(dict(which=which, postsel=postsel, min_det=md, counting=cnt, N=1))
     if tier != "quick":
         ni += [dict(which=w, postsel="none", min_det=1, counting=False, N=2) for w in ("bs", "herald1")]
-    no = [dict(which=w, postsel=p, min_det=m, counting=cnt, sampler_kind=k) for w in ("bs", "herald1", "herald0-lossy", "hom-herald", "bunch-herald") for p in ("none", "rule", "func") for m in (0, 1, 2) for cnt in (True, False) for k in ("sampler", "quick") if not (k == "quick" and m > 0)]
+    no = [dict(which=w, postsel=p, min_det=m, counting=cnt, sampler_kind=k) for w in ("bs", "herald1", "herald0-lossy", "hom-herald", "bunch-herald", "herald-only") for p in ("none", "rule", "func") for m in (0, 1, 2) for cnt in (True, False) for k in ("sampler", "quick") if not (k == "quick" and m > 0)]
     return [
         ("detector-law", h_detector_law, dl),
         ("sample_N_inputs", h_sample_n_inputs, ni, dict(max_paths=200)),
         ("sample_N_outputs", h_sample_n_outputs, no),
         ("dark-counts-refused", h_dark_counts_refused, [dict(which="bs")]),
-        ("sample", h_sample_single, [dict(which=w, sampler_kind=k) for w in ("bs", "herald1", "herald0-lossy", "hom-herald") for k in ("sampler", "quick")]),
+        ("sample", h_sample_single, [dict(which=w, sampler_kind=k) for w in ("bs", "herald1", "herald0-lossy", "hom-herald", "herald-only") for k in ("sampler", "quick")]),
         ("seed", h_seed_reproducible, [dict(which=w, method=m) for w in ("bs", "herald1", "bunch-herald") for m in ("inputs", "outputs", "quick")]),
     ]
